@@ -65,4 +65,37 @@ ROUND6 = [
         (J + "registry.py", "            model_meta = self._merge(generator, *sorted(group, key=lambda model: order[model.index]))\n            generator.optimize_type(model_meta)\n",
          "            model_meta = self._merge(generator, *sorted(group, key=lambda model: order[model.index]))\n"),
     ]),
+    ("pydantic_filter_comprehension", "the pydantic field filter is written as a comprehension", [
+        (J + "models/pydantic.py",
+         "        filtered = []\n        for field in fields:\n            field_type = self.model.type[field]\n            if field_type in (Unknown, Null):\n"
+         "                continue\n            filtered.append(field)\n        return filtered\n",
+         "        return [field for field in fields if self.model.type[field] not in (Unknown, Null)]\n"),
+    ]),
+    ("unresolved_pseudo_types_if_statement", "more than one pseudo-type left becomes str in an if statement", [
+        (J + "generator.py", "            other_types.append(str if len(str_types) > 1 else next(iter(str_types)))\n",
+         "            if len(str_types) > 1:\n                other_types.append(str)\n            else:\n                other_types.append(next(iter(str_types)))\n"),
+    ]),
+    ("matched_files_listed_first", "the files an argument matches are listed before they are read", [
+        (J + "cli.py",
+         "            matched = False\n            for real_path in process_path(path_raw):\n                matched = True\n"
+         "                iterator = iter_json_file(parser(real_path), lookup)\n                models_dict[model_name].extend(iterator)\n"
+         "            if not matched:\n",
+         "            paths = list(process_path(path_raw))\n            for real_path in paths:\n"
+         "                iterator = iter_json_file(parser(real_path), lookup)\n                models_dict[model_name].extend(iterator)\n"
+         "            if not paths:\n"),
+    ]),
+    ("extract_root_any_root_pointer", "extract_root asks for a pointer without a parent with any()", [
+        (J + "models/structure.py", "        if len(filtered) != len(node.parent.pointers):\n",
+         "        if any(ptr.parent is None for ptr in node.parent.pointers):\n"),
+    ]),
+    ("grouping_loop_while_true", "the loop that joins overlapping groups is a `while True` with a break", [
+        (J + "registry.py", "        flag = True\n        while flag:\n            flag = False\n            new_groups: OrderedSet[FrozenSet[ModelMeta]] = OrderedSet()\n",
+         "        while True:\n            flag = False\n            new_groups: OrderedSet[FrozenSet[ModelMeta]] = OrderedSet()\n"),
+        (J + "registry.py", "            if flag:\n                groups: OrderedSet[FrozenSet[ModelMeta]] = new_groups\n",
+         "            if not flag:\n                break\n            groups: OrderedSet[FrozenSet[ModelMeta]] = new_groups\n"),
+    ]),
+    ("unknown_removed_by_filter", "every Unknown is taken out of the candidates with a comprehension", [
+        (J + "generator.py", "            while Unknown in types:\n                types.remove(Unknown)\n",
+         "            types = [x for x in types if x is not Unknown]\n"),
+    ]),
 ]
